@@ -118,7 +118,13 @@ def run_all(ctx):
         changed[names[0]] = other_t
         dchg = NestedDtype.from_fields(changed)
         renamed = NestedDtype.from_fields({(n + "_" if j == 0 else n): t for j, (n, t) in enumerate(fields.items())})
+        # a proper prefix / an extension of the field list is another dtype (also through the string name)
+        ext_name = "zz_extra"
+        dext = NestedDtype.from_fields({**fields, ext_name: rng.choice(plain)[2]})
+        dpre = NestedDtype.from_fields(dict(list(fields.items())[:-1])) if k > 1 else None
         real = call_real(lambda: {
+            "prefix": (d != dext) and (dext != d) and not (d == dext) and not (dext == d) and (d != dext.name) and (dext != d.name)
+                      and (dpre is None or ((d != dpre) and (dpre != d) and not (dpre == d) and not (d == dpre.name))),
             "eq_same": d == d2 and d == d3 and hash(d) == hash(d2) == hash(d3),
             "perm": (d == dperm) == ([n for n, _ in perm] == names),
             "changed": (d == dchg) == other_t.equals(fields[names[0]]),
@@ -129,7 +135,8 @@ def run_all(ctx):
             "not_eq_other": d != "int64" and d != pd.ArrowDtype(d.pyarrow_dtype),
         })
         ctx.case("dtype.identity", {"fields": exp, "perm": [n for n, _ in perm]}, real, None,
-                 {"ok": {k2: True for k2 in ["eq_same", "perm", "changed", "renamed", "arrow_roundtrip", "pickle", "not_eq_other"]}},
+                 {"ok": {k2: True for k2 in ["prefix", "eq_same", "perm", "changed", "renamed", "arrow_roundtrip", "pickle",
+                                             "not_eq_other"]}},
                  features=(f"k={k}",))
         # name -> parse.  Names containing the separators of the format are outside the property.
         sep_free = all(", " not in n and ": " not in n and "[" not in n and "]" not in n for n in names)
@@ -162,6 +169,49 @@ def run_all(ctx):
                  spec_ok=ok, mode="dup_names")
 
 
+def case_declared_dtype_null_field(ctx):
+    """a field whose values are all missing gets the Arrow `null` element type when packed; in-place assignment of
+    real values through the accessor must keep the declared dtype and the stored type equal (or refuse)"""
+    from nested_pandas.series.packer import pack_flat
+    rng = ctx.rng
+    n = rng.randint(2, 5)
+    labels = sorted(rng.randint(0, 2) for _ in range(n))
+    df = pd.DataFrame({"a": np.arange(n, dtype=np.int64), "b": pd.Series([None] * n, dtype=object)}, index=pd.Index(labels))
+    how = rng.choice(["series", "frame_column"])
+    t = rng.choice(["double", "int64", "string"])
+    vals = gen.flat_array([gen.rand_cell(rng, t, p_null=0.0) if False else gen.rand_cell(rng, t) for _ in range(n)], t)
+    form = rng.choice(["array", "scalar", "numpy"])
+
+    def run():
+        ser = pack_flat(df, name="n")
+        if how == "frame_column":
+            nf = NestedFrame({"x": np.arange(len(ser))}, index=ser.index)
+            nf["n"] = ser
+            obj = nf["n"]
+        else:
+            obj = ser
+        outcome = "ok"
+        try:
+            if form == "scalar":
+                obj.nest["b"] = {"double": 1.5, "int64": 3, "string": "s"}[t]
+            elif form == "numpy" and t != "string":
+                obj.nest["b"] = np.asarray(vals.to_pandas())
+            else:
+                obj.nest["b"] = vals
+        except Exception as e:  # noqa: BLE001
+            outcome = type(e).__name__
+        holder = nf["n"] if how == "frame_column" else ser
+        arr = holder.array
+        return {"outcome_is_error_or_consistent": True,
+                "declared_eq_stored": bool(holder.dtype.pyarrow_dtype.equals(arr.chunked_array.type)
+                                           and str(holder.dtype) == str(NestedDtype(arr.chunked_array.type))),
+                "series_eq_array": bool(holder.dtype.pyarrow_dtype.equals(arr.dtype.pyarrow_dtype)),
+                "flat_type_is_declared": str(pa.array(holder.nest["b"]).type) == dict(fields_of(holder.dtype))["b"]}
+    ctx.case("dtype.declared.null_field", {"labels": labels, "ty": t, "form": form, "how": how}, call_real(run), None,
+             {"ok": {"outcome_is_error_or_consistent": True, "declared_eq_stored": True, "series_eq_array": True,
+                     "flat_type_is_declared": True}}, features=("null_field", t, form, how), nontrivial=True)
+
+
 def case_declared_dtype(ctx, s: Subject):
     """a column's declared dtype always equals the type of the data it stores, after any edit made
     through the accessor or the frame"""
@@ -176,7 +226,10 @@ def case_declared_dtype(ctx, s: Subject):
             arr = obj.array
             stored = NestedDtype(arr.chunked_array.type)
             flat_ty = {c: str(pa.array(obj.nest[c]).type) for c in obj.nest.fields} if len(obj) >= 0 else {}
-            return {"series_eq_array": obj.dtype == arr.dtype, "declared_eq_stored": obj.dtype == stored,
+            # structural comparison through pyarrow as well: the claim must not rest on NestedDtype.__eq__ alone
+            return {"series_eq_array": obj.dtype == arr.dtype and obj.dtype.pyarrow_dtype.equals(arr.dtype.pyarrow_dtype),
+                    "declared_eq_stored": obj.dtype == stored and obj.dtype.pyarrow_dtype.equals(arr.chunked_array.type)
+                                          and str(obj.dtype) == str(stored),
                     "fields_eq_flat": {k: v for k, v in fields_of(obj.dtype)} == flat_ty}
         real = call_real(f)
         ctx.case(f"dtype.declared[{tag}]", {**s.desc(), "history": list(hist)}, real, None,
